@@ -101,4 +101,344 @@ theorem last_mod (h S : Nat) (hS : 0 < S) (hh : (h + 1) % S = 0) : h - h % S + S
   · omega
   · rw [if_neg e] at hm; omega
 
+
+/-! ## maps -/
+
+theorem getBloomData_ins (st st' : Store) (h h' : Nat) (b : Bloom) (e : st'.blooms = st.blooms.insert h b) :
+    getBloomData st' h' = if h = h' then b else getBloomData st h' := by
+  unfold getBloomData
+  rw [e]
+  simp only [Std.HashMap.getElem?_insert, beq_iff_eq]
+  by_cases e : h = h' <;> simp [e]
+
+theorem loadFrom_get (st : Store) (n lo : Nat) (c0 : HMap) (h : Nat) :
+    (loadFrom st lo n c0)[h]? = if lo ≤ h ∧ h < lo + n then some (getBloomData st h) else c0[h]? := by
+  induction n generalizing lo c0 with
+  | zero => simp only [loadFrom]; rw [if_neg (by omega)]
+  | succ n ih =>
+    rw [loadFrom, ih]
+    by_cases a : lo + 1 ≤ h ∧ h < lo + 1 + n
+    · rw [if_pos a, if_pos (by omega)]
+    · rw [if_neg a]
+      simp only [Std.HashMap.getElem?_insert, beq_iff_eq]
+      by_cases e : lo = h
+      · subst e; rw [if_pos rfl, if_pos (by omega)]
+      · rw [if_neg e, if_neg (by omega)]
+
+theorem collect_spec (given : Nat → Bloom) (cache : HMap) (n lo : Nat)
+    (hc : ∀ h, lo ≤ h → h < lo + n → cache[h]? = some (given h)) :
+    collect cache lo n = some (secBlooms given lo n) := by
+  induction n generalizing lo with
+  | zero => rfl
+  | succ n ih =>
+    rw [collect, hc lo (Nat.le_refl _) (by omega), ih (lo + 1) (fun h h1 h2 => hc h (by omega) (by omega))]
+    rfl
+
+
+theorem secBlooms_length (given : Nat → Bloom) (n lo : Nat) : (secBlooms given lo n).length = n := by
+  induction n generalizing lo with
+  | zero => rfl
+  | succ n ih => simp [secBlooms, ih]
+
+theorem secBlooms_getElem (given : Nat → Bloom) (n lo j : Nat) (hj : j < (secBlooms given lo n).length) :
+    (secBlooms given lo n)[j] = given (lo + j) := by
+  induction n generalizing lo j with
+  | zero => simp [secBlooms] at hj
+  | succ n ih =>
+    cases j with
+    | zero => simp [secBlooms]
+    | succ j' =>
+      simp only [secBlooms, List.getElem_cons_succ]
+      rw [ih]; congr 1; omega
+
+/-! ## the invariant -/
+
+/-- store part: from the aligned height `lo` on, every height up to the current one reads back the block's bloom and every complete
+section is indexed with the blooms of its heights -/
+structure SInv (S : Nat) (given : Nat → Bloom) (lo c : Nat) (st : Store) : Prop where
+  cur : st.cur = some c
+  stored : ∀ h, lo ≤ h → h ≤ c → getBloomData st h = given h
+  index : ∀ k, lo ≤ k * S → k * S + S ≤ c + 1 → lookup k st.index = some (secBlooms given (k * S) S)
+
+structure Inv (S : Nat) (given : Nat → Bloom) (lo c : Nat) (s : St) : Prop where
+  st : SInv S given lo c s.store
+  lo_al : lo % S = 0
+  lo_fs : lo ≤ s.mem.filterStart
+  fs : s.mem.filterStart ≤ lo ∨ s.mem.filterStart ≤ c
+  key : ∀ k, s.store.filterKey = some k → lo ≤ k ∧ (k ≤ lo ∨ k ≤ c)
+  nokey : s.store.filterKey = none → lo = 0
+  cache : ∀ h, lo ≤ h → (c + 1) - (c + 1) % S ≤ h → h ≤ c → s.mem.cache[h]? = some (given h)
+
+theorem SInv.weaken {S given lo lo' c st} (h : SInv S given lo c st) (hle : lo ≤ lo') : SInv S given lo' c st :=
+  ⟨h.cur, fun x a b => h.stored x (by omega) b, fun k a b => h.index k (by omega) b⟩
+
+/-- committing the next block keeps the invariant and never panics -/
+theorem commit_inv {S : Nat} {given : Nat → Bloom} {lo c : Nat} {s : St} (hS : 0 < S) (h8 : S % 8 = 0)
+    (I : Inv S given lo c s) :
+    ∃ s', commit S s (c + 1) (given (c + 1)) = some s' ∧ Inv S given lo (c + 1) s' ∧ s'.store.filterKey = s.store.filterKey := by
+  unfold commit saveBloomData
+  by_cases hskip : c + 1 < s.mem.filterStart
+  · -- below the filter start: nothing is written
+    rw [if_pos hskip]
+    have hfl : s.mem.filterStart ≤ lo := by rcases I.fs with a | a <;> omega
+    refine ⟨_, rfl, ⟨⟨rfl, fun h a b => ?_, fun k a b => ?_⟩, I.lo_al, I.lo_fs, Or.inl hfl, fun k hk => ?_, I.nokey, fun h a b d => ?_⟩, rfl⟩
+    · by_cases e : h = c + 1
+      · omega
+      · exact I.st.stored h a (by omega)
+    · have := I.lo_fs
+      by_cases e : k * S + S = c + 1 + 1
+      · omega
+      · exact I.st.index k a (by omega)
+    · have := I.key k hk; omega
+    · omega
+  · rw [if_neg hskip]
+    have hlo : lo ≤ c + 1 := by have := I.lo_fs; omega
+    simp only []
+    by_cases hend : (c + 1 + 1) % S = 0
+    · -- the block completes a section
+      rw [if_pos hend]
+      have hstart : c + 1 - (c + 1) % S + S = c + 1 + 1 := last_mod (c + 1) S hS hend
+      have hal := aligned_le_secStart lo (c + 1) S hS I.lo_al hend hlo
+      have hsec := sec_of_last (c + 1) S hS hend
+      have hcol : collect (if c + 1 > S * 2 then ((s.mem.cache.insert (c + 1) (given (c + 1))).erase (c + 1 - S * 2))
+            else s.mem.cache.insert (c + 1) (given (c + 1))) (c + 1 + 1 - S) S
+          = some (secBlooms given (c + 1 + 1 - S) S) := by
+        apply collect_spec
+        intro h a b
+        by_cases e : h = c + 1
+        · subst e
+          split <;> simp [Std.HashMap.getElem?_erase] <;> omega
+        · have hc := I.cache h (by omega) (by omega) (by omega)
+          split
+          · rw [Std.HashMap.getElem?_erase, if_neg (by simp; omega), Std.HashMap.getElem?_insert, if_neg (by simp; omega)]
+            exact hc
+          · rw [Std.HashMap.getElem?_insert, if_neg (by simp; omega)]
+            exact hc
+      rw [hcol]
+      simp only [h8, ne_eq, not_true_eq_false, if_false]
+      refine ⟨_, rfl, ⟨⟨rfl, fun h a b => ?_, fun k a b => ?_⟩, I.lo_al, I.lo_fs, Or.inr (by simp; omega), fun k hk => ?_, I.nokey, fun h a b d => ?_⟩, rfl⟩
+      · rw [getBloomData_ins s.store _ (c + 1) h (given (c + 1)) rfl]
+        by_cases e : c + 1 = h
+        · rw [if_pos e, e]
+        · rw [if_neg e]; exact I.st.stored h a (by omega)
+      · simp only [lookup]
+        by_cases e : (c + 1) / S = k
+        · rw [if_pos e]
+          have : c + 1 + 1 - S = k * S := by rw [← e]; omega
+          rw [this]
+        · rw [if_neg e]
+          have : k * S + S ≠ c + 1 + 1 := fun x => e (sec_unique k (c + 1) S x hS)
+          exact I.st.index k a (by omega)
+      · have := I.key k hk; omega
+      · simp only [] at b d ⊢
+        rw [hend] at b; omega
+    · -- inside a section
+      rw [if_neg hend]
+      refine ⟨_, rfl, ⟨⟨rfl, fun h a b => ?_, fun k a b => ?_⟩, I.lo_al, I.lo_fs, Or.inr (by simp; omega), fun k hk => ?_, I.nokey, fun h a b d => ?_⟩, rfl⟩
+      · rw [getBloomData_ins s.store _ (c + 1) h (given (c + 1)) rfl]
+        by_cases e : c + 1 = h
+        · rw [if_pos e, e]
+        · rw [if_neg e]; exact I.st.stored h a (by omega)
+      · simp only []
+        have : k * S + S ≠ c + 1 + 1 := fun x => hend (by rw [← x]; exact mul_succ_mod k S)
+        exact I.st.index k a (by omega)
+      · have := I.key k hk; omega
+      · simp only [] at b d ⊢
+        rw [secStart_succ (c + 1) S hS hend] at b
+        have hm := Nat.mod_lt (c + 1) hS
+        by_cases e : h = c + 1
+        · subst e
+          split <;> simp [Std.HashMap.getElem?_erase] <;> omega
+        · have hc : s.mem.cache[h]? = some (given h) := by
+            apply I.cache h a _ (by omega)
+            by_cases z : (c + 1) % S = 0
+            · rw [z] at b; omega
+            · rw [secStart_succ c S hS z]
+              have := succ_mod c S hS
+              by_cases y : c % S + 1 = S
+              · rw [if_pos y] at this; exact absurd this z
+              · rw [if_neg y] at this; have := Nat.mod_le c S; omega
+          split
+          · rw [Std.HashMap.getElem?_erase, if_neg (by simp; omega), Std.HashMap.getElem?_insert, if_neg (by simp; omega)]
+            exact hc
+          · rw [Std.HashMap.getElem?_insert, if_neg (by simp; omega)]
+            exact hc
+
+
+theorem getBloomData_congr (st st' : Store) (e : st'.blooms = st.blooms) (h : Nat) : getBloomData st' h = getBloomData st h := by
+  unfold getBloomData; rw [e]
+
+/-- `LoadBloomBits` establishes the invariant from the store part, for whatever value `K` the filter start takes, provided `K` is
+compatible with the aligned bound `lo` -/
+theorem load_inv {S : Nat} {given : Nat → Bloom} {lo c : Nat} {st : Store} (v : Variant) (adh : Nat) (hS : 0 < S)
+    (I : SInv S given lo c st) (hal : lo % S = 0) (K : Nat)
+    (hK : K = filterStartOf v S adh st.filterKey c)
+    (h1 : lo ≤ K) (h2 : K ≤ lo ∨ K ≤ c) :
+    Inv S given lo c (loadBloomBits v S adh st) ∧ (loadBloomBits v S adh st).store.filterKey = some K := by
+  unfold loadBloomBits
+  simp only [I.cur, ← hK]
+  have sinv : SInv S given lo c ⟨some c, some K, st.blooms, st.index⟩ :=
+    ⟨rfl, fun h a b => by rw [getBloomData_congr st ⟨some c, some K, st.blooms, st.index⟩ rfl]; exact I.stored h a b, I.index⟩
+  by_cases hlt : c < K
+  · rw [if_pos hlt]
+    refine ⟨⟨sinv, hal, h1, h2, fun k hk => ?_, fun hk => by simp at hk, fun h a b d => by omega⟩, rfl⟩
+    simp only [Option.some.injEq] at hk; subst hk; exact ⟨h1, h2⟩
+  · rw [if_neg hlt]
+    refine ⟨⟨sinv, hal, h1, h2, fun k hk => ?_, fun hk => by simp at hk, fun h a b d => ?_⟩, rfl⟩
+    · simp only [Option.some.injEq] at hk; subst hk; exact ⟨h1, h2⟩
+    · simp only []
+      rw [loadFrom_get]
+      have hm := Nat.mod_le c S
+      have hge : c - c % S ≤ h := by
+        by_cases z : (c + 1) % S = 0
+        · rw [z] at b; omega
+        · rw [secStart_succ c S hS z] at b; exact b
+      rw [if_pos (by omega), getBloomData_congr st ⟨some c, some K, st.blooms, st.index⟩ rfl, I.stored h a d]
+
+theorem initStart_aligned_of_gt (v : Variant) (S adh c : Nat) (hS : 0 < S) (h : c < initStart v S adh c) :
+    initStart v S adh c % S = 0 := by
+  unfold initStart at h ⊢
+  by_cases a : c < adh
+  · rw [if_pos a]; exact minFilterStart_aligned S adh
+  · rw [if_neg a] at h ⊢
+    cases v with
+    | asShipped => simp only [] at h; have := ceil_le_self c S hS; omega
+    | sound => exact Nat.mul_mod_left _ _
+
+/-- a reopen keeps the invariant; the aligned bound changes only when the filter start is fixed for the first time above the
+current height -/
+theorem reopen_inv {S : Nat} {given : Nat → Bloom} {lo c : Nat} {s : St} (v : Variant) (adh : Nat) (hS : 0 < S)
+    (I : Inv S given lo c s) :
+    ∃ lo', Inv S given lo' c (loadBloomBits v S adh s.store) ∧ (loadBloomBits v S adh s.store).store.filterKey ≠ none ∧
+      (lo' = lo ∨ (s.store.filterKey = none ∧ c < lo' ∧ lo' = initStart v S adh c)) := by
+  cases hk : s.store.filterKey with
+  | some k =>
+    have := I.key k hk
+    obtain ⟨i, e⟩ := load_inv v adh hS I.st I.lo_al k (by rw [hk]; rfl) this.1 this.2
+    exact ⟨lo, i, by rw [e]; simp, Or.inl rfl⟩
+  | none =>
+    have l0 := I.nokey hk
+    subst l0
+    by_cases hle : initStart v S adh c ≤ c
+    · obtain ⟨i, e⟩ := load_inv v adh hS I.st I.lo_al (initStart v S adh c) (by rw [hk]; rfl) (Nat.zero_le _) (Or.inr hle)
+      exact ⟨0, i, by rw [e]; simp, Or.inl rfl⟩
+    · have hgt : c < initStart v S adh c := by omega
+      obtain ⟨i, e⟩ := load_inv v adh hS (I.st.weaken (Nat.zero_le (initStart v S adh c)))
+        (initStart_aligned_of_gt v S adh c hS hgt) (initStart v S adh c) (by rw [hk]; rfl) (Nat.le_refl _) (Or.inl (Nat.le_refl _))
+      exact ⟨_, i, by rw [e]; simp, Or.inr ⟨rfl, hgt, rfl⟩⟩
+
+
+/-! ## starts -/
+
+theorem genesis_commit {S : Nat} {given : Nat → Bloom} (hS : 2 ≤ S) :
+    ∃ s, commit S ⟨newMem, emptyStore⟩ 0 (given 0) = some s ∧ Inv S given 0 0 s ∧ s.store.filterKey = none := by
+  have h1 : (0 + 1) % S ≠ 0 := by rw [Nat.mod_eq_of_lt (by omega)]; omega
+  unfold commit saveBloomData newMem emptyStore
+  simp only [Nat.lt_irrefl, if_false, h1, gt_iff_lt, Nat.not_lt_zero]
+  refine ⟨_, rfl, ⟨⟨rfl, fun h a b => ?_, fun k a b => by omega⟩, Nat.zero_mod S, Nat.le_refl _, Or.inl (Nat.le_refl _),
+    fun k hk => by simp at hk, fun _ => rfl, fun h a b d => ?_⟩, rfl⟩
+  · have : h = 0 := by omega
+    subst this
+    simp [getBloomData]
+  · have : h = 0 := by omega
+    subst this
+    simp
+
+theorem sinv_setKey {S : Nat} {given : Nat → Bloom} {lo c : Nat} {st : Store} (I : SInv S given lo c st) (k : Option Nat) :
+    SInv S given lo c { st with filterKey := k } :=
+  ⟨I.cur, fun h a b => by rw [getBloomData_congr st { st with filterKey := k } rfl]; exact I.stored h a b, I.index⟩
+
+theorem start_fresh_asShipped {S : Nat} {given : Nat → Bloom} (adh : Nat) (hS : 2 ≤ S) :
+    ∃ s, start .asShipped S adh given .fresh = some s ∧ Inv S given 0 0 s := by
+  obtain ⟨s, e, i, _⟩ := genesis_commit (given := given) hS
+  exact ⟨s, by simp [start, e], i⟩
+
+theorem start_fresh_sound {S : Nat} {given : Nat → Bloom} (adh : Nat) (hS : 2 ≤ S) :
+    ∃ s, start .sound S adh given .fresh = some s ∧ Inv S given (minFilterStart S adh) 0 s ∧ s.store.filterKey ≠ none := by
+  obtain ⟨s, e, i, _⟩ := genesis_commit (given := given) hS
+  refine ⟨⟨{ s.mem with filterStart := minFilterStart S adh }, { s.store with filterKey := some (minFilterStart S adh) }⟩,
+    by simp [start, e], ⟨(sinv_setKey i.st _).weaken (Nat.zero_le _), minFilterStart_aligned S adh, Nat.le_refl _,
+    Or.inl (Nat.le_refl _), fun k hk => ?_, fun hk => by simp at hk, fun h a b d => i.cache h (Nat.zero_le _) b d⟩, by simp⟩
+  simp only [Option.some.injEq] at hk
+  subst hk
+  exact ⟨Nat.le_refl _, Or.inl (Nat.le_refl _)⟩
+
+theorem start_legacy_sound {S : Nat} {given : Nat → Bloom} (adh cur0 : Nat) (hS : 0 < S) (hg : ∀ h, h < adh → given h = 0) :
+    ∃ s lo, start .sound S adh given (.legacy cur0) = some s ∧ Inv S given lo cur0 s ∧ s.store.filterKey ≠ none := by
+  have hst : SInv S given (initStart .sound S adh cur0) cur0 { emptyStore with cur := some cur0 } := by
+    refine ⟨rfl, fun h a b => ?_, fun k a b => ?_⟩
+    · unfold initStart at a
+      by_cases x : cur0 < adh
+      · rw [hg h (by omega)]; simp [getBloomData, emptyStore]
+      · rw [if_neg x] at a
+        have := next_boundary_gt cur0 S hS
+        simp only [] at a; omega
+    · exfalso
+      unfold initStart at a
+      by_cases x : cur0 < adh
+      · rw [if_pos x] at a; exact no_section_below k S adh hS a (by omega)
+      · rw [if_neg x] at a
+        have := next_boundary_gt cur0 S hS
+        simp only [] at a; omega
+  have hal : initStart .sound S adh cur0 % S = 0 := by
+    unfold initStart
+    by_cases x : cur0 < adh
+    · rw [if_pos x]; exact minFilterStart_aligned S adh
+    · rw [if_neg x]; exact Nat.mul_mod_left _ _
+  obtain ⟨i, e⟩ := load_inv .sound adh hS hst hal (initStart .sound S adh cur0) rfl (Nat.le_refl _) (Or.inl (Nat.le_refl _))
+  exact ⟨_, _, rfl, i, by rw [e]; simp⟩
+
+/-! ## histories -/
+
+theorem initStart_asShipped_gt (S adh c : Nat) (hS : 0 < S) (h : c < initStart .asShipped S adh c) :
+    initStart .asShipped S adh c = minFilterStart S adh := by
+  unfold initStart at h ⊢
+  by_cases a : c < adh
+  · rw [if_pos a]
+  · rw [if_neg a] at h; simp only [] at h; have := ceil_le_self c S hS; omega
+
+/-- once the filter start is persisted the aligned bound never changes -/
+theorem runOps_keyed {S : Nat} {given : Nat → Bloom} (v : Variant) (adh : Nat) (hS : 0 < S) (h8 : S % 8 = 0) (ops : List Op)
+    {lo c : Nat} {s : St} (I : Inv S given lo c s) (hk : s.store.filterKey ≠ none) :
+    ∃ s' c', runOps v S adh given s ops = some s' ∧ Inv S given lo c' s' := by
+  induction ops generalizing c s with
+  | nil => exact ⟨s, c, rfl, I⟩
+  | cons op r ih =>
+    cases op with
+    | save =>
+      obtain ⟨s1, e1, i1, k1⟩ := commit_inv hS h8 I
+      obtain ⟨s', c', e2, i2⟩ := ih i1 (by rw [k1]; exact hk)
+      exact ⟨s', c', by simp [runOps, step, I.st.cur, e1, e2], i2⟩
+    | reopen =>
+      obtain ⟨lo', i1, k1, hl⟩ := reopen_inv v adh hS I
+      rcases hl with rfl | ⟨x, _, _⟩
+      · obtain ⟨s', c', e2, i2⟩ := ih i1 k1
+        exact ⟨s', c', by simp [runOps, step, e2], i2⟩
+      · exact absurd x hk
+
+/-- as shipped: the aligned bound stays 0 until the filter start is fixed above the current height, which happens only below
+`adh` and then it is `MinFilterStart` -/
+theorem runOps_asShipped {S : Nat} {given : Nat → Bloom} (adh : Nat) (hS : 0 < S) (h8 : S % 8 = 0) (ops : List Op)
+    {lo c : Nat} {s : St} (I : Inv S given lo c s) (hlo : lo ≤ minFilterStart S adh) :
+    ∃ s' lo' c', runOps .asShipped S adh given s ops = some s' ∧ Inv S given lo' c' s' ∧ lo' ≤ minFilterStart S adh := by
+  induction ops generalizing lo c s with
+  | nil => exact ⟨s, lo, c, rfl, I, hlo⟩
+  | cons op r ih =>
+    cases op with
+    | save =>
+      obtain ⟨s1, e1, i1, _⟩ := commit_inv hS h8 I
+      obtain ⟨s', lo', c', e2, i2, b2⟩ := ih i1 hlo
+      exact ⟨s', lo', c', by simp [runOps, step, I.st.cur, e1, e2], i2, b2⟩
+    | reopen =>
+      obtain ⟨lo1, i1, _, hl⟩ := reopen_inv .asShipped adh hS I
+      have b1 : lo1 ≤ minFilterStart S adh := by
+        rcases hl with rfl | ⟨_, x, y⟩
+        · exact hlo
+        · rw [y, initStart_asShipped_gt S adh c hS (by rw [← y]; exact x)]; exact Nat.le_refl _
+      obtain ⟨s', lo', c', e2, i2, b2⟩ := ih i1 b1
+      exact ⟨s', lo', c', by simp [runOps, step, e2], i2, b2⟩
+
+/-- the blooms used by the witnesses in `Props/C43.lean`: block 2 has a log -/
+def exGiven : Nat → Bloom := fun h => if h = 2 then 1 else 0
+
 end OntVerif.Proofs.Bloom
